@@ -53,9 +53,14 @@ type rpcase = {
   strict : bool; na : bool; twin : bool; cache : int option; onpanic : hop list option; onerror : hop list option;
   stmts : stmt list; hs : (int * hop list) list;
   reqs : (n list * n list * nat list) list;   (* method, path, script *)
+  late_stmts : stmt list; late_reqs : (n list * n list * nat list) list;   (* statements run after the requests, then more requests *)
 }
 
-let parse_case = function
+let rec parse_case = function
+  | L [A "rp"; o; ss; hs; reqs; L [A "late"; L lss; L lreqs]] ->
+    let c = parse_case (L [A "rp"; o; ss; hs; reqs]) in
+    { c with late_stmts = List.map stmt lss;
+             late_reqs = List.map (function L [m; p; L sc] -> (str m, str p, List.map nat sc) | x -> failwith ("rp: bad req " ^ to_string x)) lreqs }
   | L [A "rp"; L opts; L ss; L hs; L reqs] ->
     let strict = ref false and na = ref false and twin = ref false and onp = ref None and one = ref None and cache = ref None in
     List.iter (function
@@ -69,7 +74,8 @@ let parse_case = function
     { strict = !strict; na = !na; twin = !twin; cache = !cache; onpanic = !onp; onerror = !one;
       stmts = List.map stmt ss;
       hs = List.map (function L [id; L ops] -> (int id, List.map hop ops) | x -> failwith ("rp: bad handler " ^ to_string x)) hs;
-      reqs = List.map (function L [m; p; L sc] -> (str m, str p, List.map nat sc) | x -> failwith ("rp: bad req " ^ to_string x)) reqs }
+      reqs = List.map (function L [m; p; L sc] -> (str m, str p, List.map nat sc) | x -> failwith ("rp: bad req " ^ to_string x)) reqs;
+      late_stmts = []; late_reqs = [] }
   | x -> failwith ("rp: bad case " ^ to_string x)
 
 let prog_of c id =
@@ -100,7 +106,14 @@ type rtarget = RRoute of rroute | RNotFound | RNotAllowed of n list list
 let all_methods = List.map str_of_ascii ["GET"; "POST"; "PUT"; "PATCH"; "DELETE"; "OPTIONS"; "HEAD"; "CONNECT"; "TRACE"]
 let resolve c (routes : rroute list) m p =
   let p' = match format_path c.strict p with Ok x -> x | Panic -> failwith "format panic" in
-  let find m = List.fold_left (fun acc r -> if List.exists (str_eqb m) r.r_methods && str_eqb r.r_path p' then Some r else acc) None routes in
+  (* static routes: the last registration of the key wins; otherwise the first dynamic route (in registration order) whose
+     pattern matches (the rp cases have at most simple, non-overlapping dynamic routes: selection proper is C01) *)
+  let is_dyn r = List.exists (fun ch -> let x = int_of_n ch in x = 123 || x = 91) r.r_path in
+  let find m =
+    match List.fold_left (fun acc r -> if not (is_dyn r) && List.exists (str_eqb m) r.r_methods && str_eqb r.r_path p' then Some r else acc) None routes with
+    | Some r -> Some r
+    | None -> List.find_opt (fun r -> is_dyn r && List.exists (str_eqb m) r.r_methods &&
+                                      (match parse_pat r.r_path with Some pt -> pat_matches pt p' | None -> false)) routes in
   match find m with
   | Some r -> RRoute r
   | None ->
@@ -140,6 +153,26 @@ let run_model (c : rpcase) =
         | None -> L [A "req"; L [A "trace"]; L [A "log"]; L [A "esc"; esc]]) c.reqs in
     let reqs = serve_all true in
     let fresh = serve_all false in
+    (* late phase: the router after the late statements is the router built from all statements (the route cache it has kept
+       makes no difference: C07) *)
+    let reqs = if c.late_reqs = [] then reqs else begin
+        match sys_build o (c.stmts @ c.late_stmts) with
+        | Panic -> raise Unsupported
+        | Ok s2 ->
+          let sys2 = ref s2 in
+          reqs @ List.map (fun (m, p, sc) ->
+              let (out, s') = sys_serve progs hooks !sys2 m p sc !pooled in
+              sys2 := s';
+              let out = match out with Some o -> o | None -> raise Unsupported in
+              let (x, esc) = match out with
+                | Done (x, _) -> (Some x, A "none")
+                | Escaped (p, x, _) -> (Some x, spval p)
+                | OutOfFuel -> (None, A "fuel") in
+              (match out, x with Done _, Some x -> pooled := { p_index = z_of_int 0; p_handlers = []; p_x = x } | _ -> ());
+              match x with
+              | Some x -> L [A "req"; L (A "trace" :: List.map stev x.trace); L (A "log" :: List.map swev x.w.log); L [A "esc"; esc]]
+              | None -> L [A "req"; L [A "trace"]; L [A "log"]; L [A "esc"; esc]]) c.late_reqs
+      end in
     Some (reg, L (A "reqs" :: reqs), L (A "fresh" :: fresh), st)
 
 let model c =
@@ -209,7 +242,9 @@ let judge_reg c obs =
   | _ -> "bad no-reg-observation"
 
 (* onion traces of every request whose chain is well-behaved *)
-let judge_traces ?(k2 = false) c obs =
+let late_judge_ref : (rpcase -> Sexp.t list -> string) ref = ref (fun _ _ -> "ok")
+let late_judge c obs = !late_judge_ref c obs
+let rec judge_traces ?(k2 = false) c obs =
   let routes = den_block c.strict [] [] c.stmts in
   let nf = last_stmt_ids (function SNotFound h -> Some h | _ -> None) c.stmts in
   let nal = last_stmt_ids (function SNotAllowed h -> Some h | _ -> None) c.stmts in
@@ -240,7 +275,14 @@ let judge_traces ?(k2 = false) c obs =
     | _ -> "bad request-count" in
   match obs with
   | L [A "regpanic"] -> "ok"
-  | _ -> go c.reqs (get_reqs obs)
+  | _ ->
+    let all = get_reqs obs in
+    let n1 = List.length c.reqs in
+    let rec take n l = if n = 0 then [] else (match l with x :: r -> x :: take (n - 1) r | [] -> []) in
+    let rec drop n l = if n = 0 then l else (match l with _ :: r -> drop (n - 1) r | [] -> []) in
+    (match go c.reqs (take n1 all) with
+     | "ok" when c.late_reqs <> [] -> late_judge c (drop n1 all)
+     | v -> v)
 
 let c12_judge cs obs =
   let c = parse_case cs in
@@ -248,6 +290,10 @@ let c12_judge cs obs =
   | "ok" -> (match judge_traces c obs with "ok" -> "ok" | s -> (match String.split_on_char ' ' s with _ :: _ :: rest -> "bad route-chain " ^ String.concat " " rest | _ -> s))
   | s -> s
 
+(* the late requests are judged like the requests of a case whose program includes the late statements *)
+let () = late_judge_ref := (fun c obs ->
+    let c2 = { c with stmts = c.stmts @ c.late_stmts; reqs = c.late_reqs; late_stmts = []; late_reqs = [] } in
+    judge_traces c2 (L [L [A "reg"]; L (A "reqs" :: obs)]))
 let c04_judge cs obs = let c = parse_case cs in judge_traces ~k2:true c obs
 
 (* C05: after the marker event (9000 + id) that precedes the abort op *)
